@@ -1,5 +1,140 @@
-"""Verus back end (filled in below)."""
+"""Verus back end: render unit templates from /repo's working tree (extract.py), verify, map per-function
+results to obligations, run must-fail twins as vacuity guards, scan for assumptions."""
+import json
+import os
+import re
+from concurrent.futures import ThreadPoolExecutor
+
+import extract
+from common import log, offline_env, read, run, write
+
+VERUS_FLAGS = ["--output-json", "--time", "--triggers-mode", "silent"]
+
+
+def _scan_assumptions(src, unit):
+    out = []
+    for m in re.finditer(r"assume_specification\s*(?:<[^>]*>)?\s*\[([^\]]*\]?[^\]]*)\]", src):
+        out.append("verus unit %s: assume_specification[%s] (std function, contract assumed)" % (unit, re.sub(r"\s+", " ", m.group(1)).strip()))
+    for kw, what in ((r"\bassume\s*\(", "assume(..)"), (r"\badmit\s*\(", "admit()"),
+                     (r"external_body", "#[verifier::external_body]"), (r"#\[verifier::external\b", "#[verifier::external]"),
+                     (r"\baxiom\b", "axiom")):
+        n = len(re.findall(kw, re.sub(r"//[^\n]*", "", src)))
+        if n:
+            out.append("verus unit %s: %d x %s" % (unit, n, what))
+    return out
+
+
+def _verify(path, timeout=600):
+    cmd = ["verus", path] + VERUS_FLAGS
+    rc, out, wall, timed_out = run(cmd + ["--num-threads", "8"], cwd=os.path.dirname(path), env=offline_env(), timeout=timeout)
+    # stdout (json) and stderr (diagnostics) are interleaved in `out`: pull the json object out
+    data = None
+    i = out.find('{\n  "')
+    if i < 0:
+        i = out.find("{")
+    if i >= 0:
+        # json ends at the last closing brace at column 0
+        j = out.rfind("\n}")
+        if j > i:
+            try:
+                data = json.loads(out[i:j + 2])
+            except Exception:
+                data = None
+    diag = (out[:i] if i >= 0 else out) + (out[out.rfind("\n}") + 2:] if data is not None else "")
+    return data, diag, wall, timed_out, " ".join(cmd)
+
+
+def _fn_results(data, modname):
+    res = {}
+    if not data:
+        return res
+    for mod in data.get("times-ms", {}).get("smt", {}).get("smt-run-module-times", []):
+        for f in mod.get("function-breakdown", []):
+            name = f["function"]
+            if name.startswith(modname + "::"):
+                name = name[len(modname) + 2:]
+            prev = res.get(name)
+            ok = bool(f.get("success"))
+            res[name] = dict(success=ok and (prev["success"] if prev else True),
+                             time_s=(prev["time_s"] if prev else 0.0) + f.get("time-micros", 0) / 1e6,
+                             rlimit=f.get("rlimit"))
+    return res
 
 
 def run_units(scratch, obligations):
-    raise NotImplementedError
+    vdir = os.path.join(scratch, "verus")
+    os.makedirs(vdir, exist_ok=True)
+    units = []
+    for o in obligations:
+        if o.unit not in units:
+            units.append(o.unit)
+    results, cmds, extraction, raw = {}, [], [], {}
+    for u in units:
+        obls = [o for o in obligations if o.unit is u]
+        modname = "v_" + u.name
+        path = os.path.join(vdir, modname + ".rs")
+        try:
+            src, notes = extract.render(read(u.path))
+        except extract.ExtractError as e:
+            for o in obls:
+                results[o.id] = dict(status="undecided", reason=str(e), failed=[], n_checks=0, solver_s=0.0, wall_s=0.0)
+            continue
+        extraction += ["verus unit %s: %s" % (u.name, n) for n in notes]
+        write(path, src)
+        scan = _scan_assumptions(src, u.name)
+        data, diag, wall, timed_out, cmd = _verify(path)
+        cmds.append(cmd)
+        raw["verus:" + u.name] = diag[-6000:]
+        vr = (data or {}).get("verification-results", {})
+        fres = _fn_results(data, modname)
+        compile_error = data is None or (vr.get("encountered-error") and vr.get("verified", 0) == 0 and vr.get("errors", 0) == 0) \
+            or vr.get("encountered-vir-error")
+        rlimit_hit = "Resource limit" in diag or "rlimit" in diag.lower() and "exceeded" in diag.lower()
+        # must-fail twins (vacuity guard): the same function with `ensures false` must be rejected
+        twins = [o for o in obls if o.extra.get("twin") == "yes"]
+        twin_bad = {}
+        if twins and not compile_error:
+            def one(o):
+                fn = o.harness.split("::")[-1]
+                tsrc, _ = extract.render(read(u.path), falsify=fn)
+                tpath = os.path.join(vdir, "%s_twin_%s.rs" % (modname, fn))
+                write(tpath, tsrc)
+                d, dg, _, _, _ = _verify(tpath)
+                fr = _fn_results(d, os.path.basename(tpath)[:-3])
+                r = fr.get(o.harness)
+                return o.id, (r is None or r["success"])
+            with ThreadPoolExecutor(max_workers=4) as ex:
+                for oid, bad in ex.map(one, twins):
+                    twin_bad[oid] = bad
+        for o in obls:
+            if timed_out:
+                results[o.id] = dict(status="undecided", reason="verus timeout", failed=[], n_checks=0, solver_s=0.0, wall_s=wall)
+                continue
+            if compile_error:
+                errs = [l for l in diag.splitlines() if l.startswith("error")][:6]
+                results[o.id] = dict(status="undecided", reason="unsupported construct / verus rejected the extracted unit: " + " | ".join(errs),
+                                     failed=[], n_checks=0, solver_s=0.0, wall_s=wall, verifier_output=diag[-6000:])
+                continue
+            r = fres.get(o.harness)
+            if r is None:
+                results[o.id] = dict(status="undecided", reason="lost anchor: function %s not in verus results" % o.harness,
+                                     failed=[], n_checks=0, solver_s=0.0, wall_s=wall)
+                continue
+            if r["success"]:
+                if twin_bad.get(o.id):
+                    results[o.id] = dict(status="undecided", reason="vacuity guard: `ensures false` twin of %s was accepted (contradictory precondition?)" % o.harness,
+                                         failed=[], n_checks=1, solver_s=r["time_s"], wall_s=wall)
+                else:
+                    results[o.id] = dict(status="ok", failed=[], n_checks=1, solver_s=r["time_s"], wall_s=wall,
+                                         assumption_scan=scan, rlimit=r["rlimit"])
+            else:
+                # which diagnostics belong to this function is not given by verus; carry all of them
+                msgs = re.findall(r"^error: ([^\n]*)\n\s*--> [^\n]*:(\d+):", diag, re.M)
+                if rlimit_hit:
+                    results[o.id] = dict(status="undecided", reason="verus resource limit exceeded in %s" % o.harness,
+                                         failed=[], n_checks=1, solver_s=r["time_s"], wall_s=wall, verifier_output=diag[-6000:])
+                else:
+                    results[o.id] = dict(status="fail", failed=[dict(description="verus: %s rejected (%s)" % (
+                        o.harness, "; ".join("%s @line %s" % m for m in msgs[:4])), category="verus")],
+                        n_checks=1, solver_s=r["time_s"], wall_s=wall, verifier_output=diag[-8000:])
+    return results, cmds, extraction, raw
